@@ -320,7 +320,7 @@ def step_obligation(ob, ty, op):
             B2 = w["n"] * w["o"] + w["Br"] + A2
             n2 = w["n"] + 1
         ex.exec_fn(fn, args, st)
-        ex.assumes.append(st.guard)
+        ex.exit_guards.append(st.guard)
         c2 = st.frames[0]["c"]
         goals = post_conditions(ctx, ty, c2, A2, B2, n2, consts)
         return ex, w, x, goals, extra
@@ -338,7 +338,7 @@ def step_obligation(ob, ty, op):
             extra_c = []
             if extra2:
                 extra_c = [extra2["rolls"] == 0, extra2["a"] < M_SPEC, extra2["b"] < M_SPEC]
-            st, model, _ = decide(ex2.assumes + extra_c, neg, ob.cap)
+            st, model, _ = decide(ex2.assumes + extra_c + (ex2.exit_guards if name in goals2 else []), neg, ob.cap)
             if st != "sat":
                 continue
             o_ = model_int(model, w2["o"])
@@ -383,7 +383,7 @@ def digest_obligation(ob, ty):
         sb = ex.exec_fn(ctx.fn(ex, ty, "sum_b"), [VRef("place", 0, "c")], st)
         goals["components<65521"] = z3.And(sa.t < M_SPEC, sb.t < M_SPEC, sa.t == A % M_SPEC, sb.t == B % M_SPEC)
         fns += ["%s::sum_a" % ty, "%s::sum_b" % ty]
-    ex.assumes.append(st.guard)
+    ex.exit_guards.append(st.guard)
 
     def witness(name, neg, model):
         return {"confirmed": False, "detail": "digest/len accessor disagrees with the invariant-derived value; "
@@ -527,7 +527,7 @@ def new_accelerated(ob, ty):
         c = ex.exec_fn(fn, [], st, K=0, entry=head, init=init)
         if c is None:
             raise Inconclusive("exit path of `new` does not return")
-        ex.assumes.append(st.guard)
+        ex.exit_guards.append(st.guard)
         goals = post_conditions(ctx, ty, c, A, B, n, consts)
         return ex, w, goals
 
@@ -537,7 +537,7 @@ def new_accelerated(ob, ty):
         for nmax in (NMAX,):
             ex2, w2, goals2 = build_exit(runlen_window, nmax=nmax, runs=2)
             neg2 = z3.Not(goals2[name]) if name in goals2 else z3.Or(*[o.formula for o in ex2.obligs])
-            s, m2, _ = decide(ex2.assumes, neg2, ob.cap)
+            s, m2, _ = decide(ex2.assumes + (ex2.exit_guards if name in goals2 else []), neg2, ob.cap)
             if s == "sat":
                 runs = [[model_int(m2, k), model_int(m2, v)] for k, v in zip(w2["ks"], w2["vs"])]
                 runs = [r for r in runs if r[0] > 0]
@@ -562,7 +562,7 @@ def new_unrolled(ob, ty, nmax):
             arr = z3.Store(arr, j, xj)
         st = State()
         c = ex.exec_fn(ctx.fn(ex, ty, "new"), [VRef("val", val=VSeq(arr, I(0), I(n), "u8"))], st)
-        ex.assumes.append(st.guard)
+        ex.exit_guards.append(st.guard)
         A = sum(xs) if xs else I(0)
         B = sum((n - j) * xj for j, xj in enumerate(xs)) if xs else I(0)
         goals = post_conditions(ctx, ty, c, A, B, I(n), consts)
@@ -587,7 +587,7 @@ def cross_type(ob):
     st.frames[0] = {"c32": c32, "c64": c64}
     d32 = ex.exec_fn(ctx.fn(ex, "RollingChecksum", "digest"), [VRef("place", 0, "c32")], st)
     d64 = ex.exec_fn(ctx.fn(ex, "FastRollingChecksum", "digest"), [VRef("place", 0, "c64")], st)
-    ex.assumes.append(st.guard)
+    ex.exit_guards.append(st.guard)
     ob.prove(ex, {"equal": d32.t == d64.t}, "C17/cross-type-digest", "any two states representing the same window 0..65536",
              ["RollingChecksum::digest", "FastRollingChecksum::digest"],
              lambda n, f, m: {"confirmed": False, "detail": "digests differ for states representing the same window"})
